@@ -25,4 +25,9 @@ EmitStrap == StrapDone =>
                                          <<(Pts(hdr)[i + 1][1] - Pts(hdr)[i][1]) \div 2, Pts(hdr)[i + 1][2] - Pts(hdr)[i][2]>>],
                              tl |-> hdr.len \div 2,
                              moves |-> mb.moves])>>)
+(* (units handed to Consist::new, units handed to set_loco_vec): 0 diesel, 1 battery-electric *)
+KindCode(k) == IF k = "bel" THEN 1 ELSE 0
+EmitRelist == RelistDone =>
+  PrintT(<<"REPLAY", ToJson([kind |-> "relist", u0 |-> [i \in 1..Len(mb.u0) |-> KindCode(mb.u0[i])],
+                             u |-> [i \in 1..Len(mb.u) |-> KindCode(mb.u[i])], d |-> cur.dist])>>)
 =============================================================================
